@@ -24,6 +24,7 @@ func Install(start time.Time) {
 	nowNS = start.UnixNano()
 	sleeps = nil
 	reads = 0
+	resetTimers()
 }
 
 //go:norace
@@ -68,17 +69,18 @@ func Sleep(d time.Duration) {
 	if d > 0 {
 		nowNS += int64(d)
 	}
+	fireDue()
 }
 
 // Advance moves the simulated clock forward (harness only).
 //
 //go:norace
-func Advance(d time.Duration) { nowNS += int64(d) }
+func Advance(d time.Duration) { nowNS += int64(d); fireDue() }
 
 // Set steps the clock to an absolute instant (between simulated processes).
 //
 //go:norace
-func Set(t time.Time) { nowNS = t.UnixNano() }
+func Set(t time.Time) { nowNS = t.UnixNano(); fireDue() }
 
 // Sleeps returns the durations the code under test slept, in order.
 //
